@@ -236,3 +236,56 @@ NOT_APPLICABLE = {
 }
 for _p in ():
     NOT_APPLICABLE.setdefault(_p, PENDING)
+
+
+# What the build rounds added on top of the first version of each check (appended to level_claimed.text).
+ADDED = {
+    'C01': 'Later additions: catalogues of 4096..8192 halo rows (2% of the cases), explicit cleaned-catalogue directory, '
+           'subsample dictionaries in any key order, 64-bit halo ids beyond 2^53 / 2^63, a prior load of another catalogue '
+           'in the same process, Python-level thread pools in the loader run by the seeded task scheduler (instr/simpool).',
+    'C02': 'Later additions: a prior load of another catalogue in the same process with the fields=all table compared to '
+           'the same load in a fresh interpreter; Python-level thread pools in the loader run in a seeded task order.',
+    'C03': 'Later additions: large catalogues, filters on light-cone catalogues, subsample dictionary key order, 64-bit ids.',
+    'C05': 'Later additions: (ratio, reference) request pairs in seeded order, integer-typed header values, 64-bit integer '
+           'columns beyond 2^53 compared as integers with their dtype, prior load of another catalogue.',
+    'C06': 'Later additions: negative sub-cell offsets, a complete sweep over boundary-coordinate products (120 '
+           'configurations x 343..729 particles), the same arrays painted twice into one grid with the caller arrays required '
+           'unchanged (beyond the documented wrap), non-contiguous / Fortran / read-only position and weight arrays, supplied '
+           'grids that are padded views or Fortran-ordered with the caller\'s own array required to hold the result, '
+           'positions that wrap to exactly BoxSize.',
+    'C07': 'Later additions: partition axes 1 and 2, exact half-cell ties after the offset with value-preserving shared cells '
+           'counted as conflicts, positions one period outside the box (and ones that wrap to exactly BoxSize) under '
+           'wrap=True, array memory layouts.',
+    'C08': 'Later additions: odd and unsorted multipole sets, a call history with another thread count before, the estimator '
+           'calc_pk_from_deltak on the same mesh (must report the binned means x Lbox^3), weights in other memory layouts; '
+           'NOT simulation but configuration sweeps of the compiled kernels on real threads: every mesh size 1..128 (256 '
+           'thorough) x 1..16 threads against one thread, and meshes 256^3 / 320^3 (400^3) with exactly counted bins.',
+    'C09': 'Later additions: optional HOD keys left out, tracer dictionaries in any insertion order, particle tables not in '
+           'host order, a two-call history on the same tracer dictionaries / halo and particle arrays with in-place updates '
+           'and give-then-omit of optional keys.',
+    'C10': 'Later additions: complete (host count 0..130 x Nthread 1..16) sweep, sorted-duplicate host lookups, particle '
+           'tables not in host order, tracer insertion order; NOT simulation but a configuration sweep of the compiled '
+           'kernels on real threads: 4096*T-1 .. 3*4096*T hosts / particles for T in 2,3,4,8,16 against one thread, bit for bit.',
+    'C11': 'Later additions: complete sweeps (arena and bounds-check child) over the interpolation grids, decoder output '
+           'subsets, boundary-coordinate products for the three mass-assignment kernels, cumulative sums around 2^16 and '
+           '2^20 elements with 1 and 16 numba threads.',
+    'C12': 'Later additions: slab files of 1024..8192 halos (4%) and 65536..131072 halos (1%) in decreasing / rotated order, '
+           'id bases 2^53+1 / 2^62 and uint64 id dtype in the halo file.',
+    'C13': 'Later additions: the same array object as both fields, explicit bin arrays and k_max, orders sorted along an axis, '
+           'coordinates on the lower box face, float64 positions; NOT simulation but a configuration sweep of the compiled '
+           'estimator on real threads: every nmesh 2..64 (96 thorough) x 1..16 threads against one thread.',
+    'C14': 'Later additions: payloads beyond one default 4 MiB block; one or two other streams decompressed at the same time '
+           'on the shared compressor instance with the chunk pulls of all streams interleaved by the seeded scheduler (real '
+           'threads parked before every chunk, released one at a time); the history read through one reused writable buffer.',
+    'C16': 'Later additions: near-integer float ppd, 10^5-record files, empty column requests; NOT simulation but a '
+           'configuration sweep of the compiled decoders: every record count 0..20000 (60000 thorough) plus samples up to '
+           '300000 x 1,2,3,4,8,16 numba threads against the single-thread decoding of the longest input.',
+    'C17': 'Later additions: complete (N 0..130 x nthread 1..16) sweep, weight dtype independent of the position dtype, the '
+           'same arrays edited in place and partitioned again with identical arguments, array memory layouts.',
+    'C19': 'Later additions: lengths 2^k-1, 2^k, 2^k+1 up to 2^20 (2^21 thorough) x flags x 1/3/16 numba threads, strided and '
+           'read-only inputs, strided outputs (the slots in between must stay untouched).',
+    'C20': 'Later additions: columns of 4..10 MiB, fields requested twice, big-endian stored columns, the same paths piped '
+           'once with other contents before the files are rewritten.',
+}
+for _k, _v in ADDED.items():
+    CHECKS[_k]['text'] = CHECKS[_k]['text'].rstrip() + ' ' + _v
